@@ -63,7 +63,7 @@ PROPS["C08"] = {
     "assumptions": ["interruption of the first launch of the new release is C04"],
 }
 PROPS["C17"] = {
-    "modules": ["C17"], "required_theorems": ["C17_holds"], "monitors": ["C17"],
+    "modules": ["C17"], "required_theorems": ["event_batch_agrees", "C17_holds"], "monitors": ["C17"],
     "fields": ["ret", "net", "sj", "sje", "pj"],
     "campaign": camp([("lifecycle", 500), ("mixed", 300), ("rollback", 200), ("release", 150), ("chaos", 150)],
                      [("lifecycle", 8000), ("mixed", 5000), ("rollback", 3000), ("release", 2000), ("chaos", 2000), ("strings", 2000)]),
@@ -102,7 +102,7 @@ PROPS["C06"] = {
     "assumptions": ["reqwest / TLS / socket behaviour is runtime: the model sees only the classified result (error | ok value) of each request"],
 }
 PROPS["C20"] = {
-    "modules": ["C20"], "required_theorems": ["C20_holds"], "monitors": ["C20"],
+    "modules": ["C20"], "required_theorems": ["default_channel_agrees", "C20_holds"], "monitors": ["C20"],
     "fields": ["net", "sj", "sje"],
     "campaign": camp([("strings", 600), ("mixed", 300), ("lifecycle", 200), ("init", 200), ("chaos", 150)],
                      [("strings", 10000), ("mixed", 5000), ("lifecycle", 4000), ("init", 3000), ("chaos", 3000)]),
@@ -148,7 +148,7 @@ PROPS["C18"] = {
 }
 
 PROPS["C13"] = {
-    "modules": ["C13"], "required_theorems": ["sites_covered", "never_panics", "stepP_ok", "applyChannel_ok", "artifactPath_utf8", "pathToCString_ok", "uninit_defaults", "C13_holds"],
+    "modules": ["C13"], "required_theorems": ["artifactPath_consts", "sites_covered", "never_panics", "stepP_ok", "applyChannel_ok", "artifactPath_utf8", "pathToCString_ok", "uninit_defaults", "C13_holds"],
     "monitors": ["C13"],
     "fields": ["ret", "net", "pj", "pd", "sj"],
     "campaign": camp([("chaos", 500), ("init", 400), ("strings", 300), ("damage", 300), ("download", 300), ("mixed", 200)],
